@@ -411,19 +411,19 @@ pub fn run(tier: Tier, replay: Option<Value>) -> i32 {
         }
         return run.finish("replay", &[], None, &[]);
     }
-    let depth = tier.pick(3, 4);
+    let depth = 4;
     let strings = enumerate_strings(depth);
     run.sample(|| json!({"validity_strings": [&strings[5], &strings[100], &strings[1001]]}));
     check_validity(&run, &strings);
     let a4 = ["a", "a-", "ab", "é"];
     let a7 = ["-", "a", "a b", "a.b", "ab", "~", "é"];
-    let p4 = enumerate_valid_paths(&a4, tier.pick(3, 4));
-    let p7 = enumerate_valid_paths(&a7, tier.pick(2, 3));
+    let p4 = enumerate_valid_paths(&a4, 4);
+    let p7 = enumerate_valid_paths(&a7, 3);
     run.sample(|| json!({"order_paths": [&p4[3], &p4[17], &p7[30]]}));
     check_order_exhaustive(&run, "a4", &p4);
     check_order_exhaustive(&run, "a7", &p7);
-    check_random_pairs(&run, tier.pick(50_000, 1_000_000));
-    check_emitters(&run, tier.pick(60, 1500));
+    check_random_pairs(&run, tier.pick(300_000, 3_000_000));
+    check_emitters(&run, tier.pick(400, 6000));
     run.finish(
         "validity: every string over a 13-component alphabet (incl. '', '.', '..', NUL, bytes below and above '/') up to the stated depth, with and without leading/trailing slash; order: all pairs and triples of valid paths over two alphabets (exhaustive) + random longer paths; emitters: generated trees walked, backed up with small hunks, decoded independently. Distinct non-trivial = distinct unordered pairs of different paths compared + distinct generated trees.",
         &["the documented order is as restated in oracle::apath_key (doc/format.md)", "snap/serde_json decode written hunks correctly"],
